@@ -288,7 +288,7 @@ theorem maintenance_roundtrip (iso : String → Option String) (m : MInfo) (hl :
 /-- unknown keys inside an entry are ignored -/
 theorem entry_unknown_key (iso : String → Option String) (a b : List (String × JVal)) (k : String) (v : JVal)
     (hk : k ∉ entryFields) : entryOf iso (.obj (a ++ (k, v) :: b)) = entryOf iso (.obj (a ++ b)) := by
-  simp [entryOf, List.filter_cons, hk]
+  simp [entryOf, hk]
 
 example : EntryOK (fun s => some s) ⟨some "Maint", some "2024-01-02T03:04:05", none⟩ := by
   refine ⟨?_, ?_, ?_⟩ <;> simp [stateNames]
